@@ -541,9 +541,15 @@ def probe_keepalive_restores():
 
 def gen_lean(restores):
     b = "true" if restores else "false"
-    body = ("theorem holds : C17_full cfg := C17_full_of_good cfg (by decide)\n#print axioms holds\n" if restores else
+    body = ("theorem holds : C17_full cfg := C17_full_of_good cfg (by decide)\n#print axioms holds\n"
+            "theorem holds2 : C17_full2 cfg := C17_full2_of_good cfg (by decide)\n#print axioms holds2\n" if restores else
             "theorem violated : ¬ C17_full cfg := C17_witness_keepalive cfg (by decide)\n#print axioms violated\n"
-            "theorem holds_partial : C17_core cfg := C17_partial cfg\n#print axioms holds_partial\n")
+            "theorem holds_partial : C17_core cfg := C17_partial cfg\n#print axioms holds_partial\n"
+            "theorem violated2 : ¬ C17_full2 cfg := C17_witness_keepalive2 cfg (by decide)\n#print axioms violated2\n"
+            "theorem holds_partial2 : C17_core2 cfg := C17_partial2 cfg\n#print axioms holds_partial2\n")
+    body += ("theorem destroy_balance (evs : List (Nat × Ev2)) (k : Nat) :\n"
+             "    (run2 cfg State.init evs).destroyed.count k + (if hasId (run2 cfg State.init evs) k then 1 else 0)\n"
+             "      ≤ incarnations (run2 cfg State.init evs) k := C17_destroyed_at_most_once cfg evs k\n#print axioms destroy_balance\n")
     return ("import Bptk.Props.C17\n/-! GENERATED by harness/props/c17.py from /repo on every run — do not edit. -/\n"
             "namespace Bptk.C17.Gen\n"
             f"def cfg : Cfg := {{ keepAliveRestores := {b} }}\n" + body + "end Bptk.C17.Gen\n")
@@ -623,7 +629,8 @@ def run(chk):
         "Flask test client instead of a network server; wall-clock behaviour only through the thorough tier's real-time timelines",
     ]
     chk.assumptions = [
-        "timeout values are non-negative integers (as the endpoint's docstring requires); requests are sequential (the clock does not advance inside a request)",
+        "requests are sequential (the clock does not advance inside a request); timeouts: any JSON numbers the endpoint accepts — the model runs on max(0, timedelta) in microseconds (clamp_expiry), fractional values in quarters of a unit with timedelta's single half-even rounding (quarterMicros, validated against timedelta)",
+        "stop-instance / save-state / load-state are events of the model (Ev2): stop-instance and a load-state overwrite drop the bptk object without destroy() (ghost log `dropped`); the live set is compared by id (dict / directory-listing order after load-state is not modelled)",
         "'resources released' is observed as bptk.destroy() being called on the instance's bptk object",
         "reading: the next *request* to a timed-out externalised instance includes keep-alive (Cfg.keepAliveRestores); restored content is C19/C20's subject, here only presence, timer and timeout",
     ]
@@ -681,7 +688,11 @@ def run(chk):
     dist.update(STATS)
     chk.cov["input_distribution"] = dist
     chk.cov["rule"] = ("timed histories of 8..40 requests over <= 4 instances generated online from the observed server state (create with a timeout in "
-                       "1..4 of the 7 units incl. 0, begin/results/step/end/keep-alive on live, expired, externalised and unknown ids, metrics, full-metrics); "
+                       "1..4 of the 7 units incl. 0, short/long mixes, negative and fractional values; begin/results/step/end/keep-alive on live, expired, externalised "
+                       "and unknown ids, metrics, full-metrics, stop-instance, save-state, load-state); plus scripted restored-instance patterns with random parameters "
+                       "(short-timeout instance externalised next to a long-timeout one, swept, restored by request / keep-alive / load-state, idle past its timeout, "
+                       "trigger, metrics, new restore or stop-instance + refused id) — see input_distribution.restored_then_expired_with_other_live; "
+                       "over every whole history no bptk object gets destroy() twice; "
                        "the clock jumps to an expiry boundary (last+timeout-2..+2 µs) in 60% of the steps; after every request the live set with last-access "
                        "times, timeouts, session flags, the destroy() log and the external state listing are compared with the model; "
                        "a case is the canonical event list; non-trivial = at least one instance expired")
